@@ -159,6 +159,20 @@ MUTANTS = [
     ("prod-vjp-ans-unexpanded", {"C01": "A3.reduce"}, [(NV, "        g_repeated, _ = repeat_to_match_shape(g * ans, shape, dtype, axis, keepdims)\n        return g_repeated / x", "        g_repeated, _ = repeat_to_match_shape(g, shape, dtype, axis, keepdims)\n        return g_repeated * ans / x")]),
     ("make-dict-vjp-by-position", {"C12": "A2.dictkeys"}, [(BU, "lambda ans, keys, vals: lambda g: list(g[key] for key in keys)", "lambda ans, keys, vals: lambda g: list(g.values())")]),
     ("thread-local-with-slots", {"C20": "A11.thread"}, [(TR, "class TraceStack(threading.local):\n", "class TraceStack(threading.local):\n    __slots__ = [\"top\"]\n\n")]),
+    ("arraybox-hash-by-value", {"C03": "A14", "C06": "A14"}, [(NB, "    def __hash__(self):\n        return id(self)", "    def __hash__(self):\n        return hash(self._value)")]),
+    ("reshape-method-drops-kwargs", {"C06": "A1.methods", "C14": "A1.methods"}, [(NV, "        return anp.reshape(x, args, **kwargs)", "        return anp.reshape(x, args)")]),
+    ("zeros-hoisted-out-of-closure", {"C14": "A10", "C10": "A10"}, [(CO, "    if end_node is None:\n\n        def vjp(g):\n            return vspace(x).zeros()", "    if end_node is None:\n        zeros = vspace(x).zeros()\n\n        def vjp(g):\n            return zeros")]),
+    ("untake-index-rewritten-recursively", {"C11": "A9.scatter"}, [(NV, "    if isinstance(idx, list) and (len(idx) == 0 or not isinstance(idx[0], slice)):\n        idx = onp.array(idx, dtype=\"int64\")\n\n    def mut_add(A):", "    idx = _index_arrays(idx)\n\n    def mut_add(A):"), (NV, "@primitive\ndef untake(x, idx, vs):", "def _index_arrays(idx):\n    if isinstance(idx, tuple):\n        return tuple(_index_arrays(i) for i in idx)\n    if isinstance(idx, list) and (len(idx) == 0 or not isinstance(idx[0], slice)):\n        return onp.array(idx, dtype=\"int64\")\n    return idx\n\n\n@primitive\ndef untake(x, idx, vs):")]),
+    ("extend-right-negative-slice-bound", {"C12": "A2.layout"}, [(BU, "    return lambda g: g[: len(seq)] if argnum == 0 else g[len(seq) + argnum - 1]", "    return lambda g: g[: -len(elts)] if argnum == 0 else g[argnum - 1 - len(elts)]")]),
+    ("even-shape-guard-made-conditional", {"C15": "A6.dom"}, [(FF, "    if s is None:\n        s = [vs.shape[i] for i in axes]\n    check_even_shape(s)", "    if s is None:\n        s = [vs.shape[i] for i in axes]\n        check_even_shape(s)")]),
+    ("array-vspace-scalar-fast-path", {"C13": "A1.members"}, [(NS, "    def __init__(self, value):\n        value = np.asarray(value)\n        self.shape = value.shape\n        self.dtype = value.dtype", "    def __init__(self, value):\n        if np.isscalar(value):\n            self.shape = ()\n            self.dtype = np.dtype(complex if self.iscomplex else float)\n            return\n        value = np.asarray(value)\n        self.shape = value.shape\n        self.dtype = value.dtype")]),
+    ("accumulator-shared-across-calls", {"C19": "A13.once", "C03": "A13.once", "C10": "A13.once"}, [(CO, "def backward_pass(g, end_node):\n    outgrads = {end_node: (g, False)}", "def backward_pass(g, end_node, outgrads={}):\n    outgrads[end_node] = (g, False)")]),
+    ("pad-jvp-same", {"C04": "A1.lin", "C02": "A1.lin"}, [(NJ, "defjvp(anp.pad, lambda g, ans, array, width, mode, **kwargs: anp.pad(g, width, mode))", 'defjvp(anp.pad, "same")')]),
+    ("broadcast-repeat-condition", {"C02": "A3.helper"}, [(NJ, "    for axis, size in enumerate(anp.shape(x)):\n        if size == 1:", "    for axis, size in enumerate(anp.shape(x)):\n        if size < target_shape[axis]:")]),
+    ("inner-match-complex-wrong-target", {"C05": "A4.match", "C09": "A4.match"}, [(NV, "        return lambda G: match_complex(B, tensordot_adjoint_1(A, G, axes, A_ndim, B_ndim))", "        return lambda G: match_complex(A, tensordot_adjoint_1(A, G, axes, A_ndim, B_ndim))")]),
+    ("htp-outer-grad-loses-argnum", {"C16": "A15.products", "C08": "A15.products"}, [(DO, "    return grad(vector_dot_grad, argnum)", "    return grad(vector_dot_grad)")]),
+    ("power-jvp-guard-dropped", {"C07": "A5", "C04": "A5"}, [(NJ, "    lambda g, ans, x, y: g * y * x ** anp.where(y, y - 1, 1.0),", "    lambda g, ans, x, y: g * y * x ** (y - 1),")]),
+    ("single-thread-fast-path-counter", {"C20": "A12.bal", "C08": "A12.bal"}, [(TR, "        self.top += 1\n        yield self.top\n        self.top -= 1", "        stack = self if threading.active_count() > 1 else _single_threaded\n        stack.top += 1\n        yield stack.top\n        stack.top -= 1"), (TR, "trace_stack = TraceStack()", "class _Counter:\n    top = -1\n\n\n_single_threaded = _Counter()\ntrace_stack = TraceStack()")]),
     ("container-space-loses-subval", {"C12": "A1.spaces"}, [(BU, "    def _subval(self, xs, idx, x):\n        d = dict(xs.items())\n        d[idx] = x\n        return d\n", "")]),
 ]
 
@@ -193,6 +207,11 @@ BENIGN = [
     ("toposort-decrement-then-test", [("autograd/util.py", "            if child_counts[parent] == 1:\n                childless_nodes.append(parent)\n            else:\n                child_counts[parent] -= 1", "            child_counts[parent] -= 1\n            if child_counts[parent] == 0:\n                childless_nodes.append(parent)")]),
     ("toposort-not-in-first", [("autograd/util.py", "        if node in child_counts:\n            child_counts[node] += 1\n        else:\n            child_counts[node] = 1\n            stack.extend(parents(node))", "        if node not in child_counts:\n            child_counts[node] = 1\n            stack.extend(parents(node))\n        else:\n            child_counts[node] += 1")]),
     ("container-lambda-renamed", [(BU, "return self._map(lambda vs, x, y: vs._add(x, y), xs, ys)", "return self._map(lambda space, a, b: space._add(a, b), xs, ys)")]),
+    ("untake-normalisation-in-helper", [(NV, "    if isinstance(idx, list) and (len(idx) == 0 or not isinstance(idx[0], slice)):\n        idx = onp.array(idx, dtype=\"int64\")\n\n    def mut_add(A):", "    idx = _as_index(idx)\n\n    def mut_add(A):"), (NV, "@primitive\ndef untake(x, idx, vs):", "def _as_index(idx):\n    if isinstance(idx, list) and (len(idx) == 0 or not isinstance(idx[0], slice)):\n        return onp.array(idx, dtype=\"int64\")\n    return idx\n\n\n@primitive\ndef untake(x, idx, vs):")]),
+    ("zeros-local-inside-closure", [(CO, "        def vjp(g):\n            return vspace(x).zeros()", "        def vjp(g):\n            z = vspace(x).zeros()\n            return z")]),
+    ("extend-right-index-from-end", [(BU, "    return lambda g: g[: len(seq)] if argnum == 0 else g[len(seq) + argnum - 1]", "    return lambda g: g[: len(seq)] if argnum == 0 else g[argnum - 1 - len(elts)]")]),
+    ("extend-right-slice-via-len-g", [(BU, "    return lambda g: g[: len(seq)] if argnum == 0 else g[len(seq) + argnum - 1]", "    return lambda g: g[: len(g) - len(elts)] if argnum == 0 else g[len(seq) + argnum - 1]")]),
+    ("array-vspace-init-asanyarray", [(NS, "        value = np.asarray(value)\n        self.shape = value.shape\n        self.dtype = value.dtype", "        arr = np.asarray(value)\n        self.dtype = arr.dtype\n        self.shape = arr.shape")]),
     ("where-with-zeros-like", [(NV, "    lambda ans, c, x=None, y=None: unbroadcast_f(x, lambda g: anp.where(c, g, anp.zeros(g.shape))),", "    lambda ans, c, x=None, y=None: unbroadcast_f(x, lambda g: anp.where(c, g, anp.zeros_like(g))),")]),
 ]
 
